@@ -40,10 +40,6 @@ def ncfg(ctx, name, ev, keys, mut, frame, slots, hist, inv, props=(), constraint
                      invariants=inv, properties=props, constraints=constraints)
 
 
-def hist_docs(conf, hist, max_keys):
-    return [th.case_doc(conf, e["h"]) for e in hist]
-
-
 def replay_history(ctx, conf, hist, max_keys, label):
     """one TLC history on the real RunNormalizer; returns (recorder, mismatch text or None)"""
     kmap, rmap, idmap = th.case_maps(conf, max_keys)
@@ -83,9 +79,9 @@ def run(ctx):
     jobs = {
         "repaired": lambda: run_tlc("Normalizer", ncfg(ctx, "repaired.cfg", 2 if q else 4, 2, "repaired", "repaired", both, False, INV_STRICT,
                                                        props=["C35_InputsUnchangedStep"]), spec_dir=SD, tag="C35a", timeout=3000,
-                                   workers=2 if q else "auto", java_opts=th.JO_FAST if q else None),
+                                   workers=2 if q else "auto", java_opts=th.JO_FAST if q else th.JO_BIG),
         "asfound": lambda: run_tlc("Normalizer", ncfg(ctx, "asfound.cfg", ex_ev, 2, "asfound", "asfound", both, False, INV_KF),
-                                   spec_dir=SD, tag="C35b", timeout=3000),
+                                   spec_dir=SD, tag="C35b", timeout=3000, java_opts=th.JO_BIG),
         "wit_mut": lambda: run_tlc("Normalizer", ncfg(ctx, "wit_mut.cfg", 1, 1, "asfound", "asfound", both, True, ["W_InputsNeverModified"], modern=False),
                                    spec_dir=SD, tag="C35c", timeout=600, workers=1, java_opts=th.JO_FAST),
         "wit_rng": lambda: run_tlc("Normalizer", ncfg(ctx, "wit_rng.cfg", 2, 1, "asfound", "asfound", both, True, ["W_RangesMatchEvent"], modern=False),
@@ -98,7 +94,7 @@ def run(ctx):
     for nm, ev, keys, slots in hist_cfgs:
         jobs[nm] = (lambda nm=nm, ev=ev, keys=keys, slots=slots:
                     run_tlc("Normalizer", ncfg(ctx, f"{nm}.cfg", ev, keys, "asfound", "asfound", slots, True, INV_KF, constraints=["DumpHist"]),
-                            spec_dir=SD, tag="C35" + nm, timeout=3000, workers=1, java_opts=th.JO_FAST if q else None))
+                            spec_dir=SD, tag="C35" + nm, timeout=3000, workers=1, java_opts=th.JO_FAST if q else th.JO_BIG))
     t0 = time.time()
     res = th.run_parallel(jobs)
     ctx.note(f"phase TLC (parallel): {time.time() - t0:.1f}s")
@@ -172,9 +168,9 @@ def run(ctx):
     for f in ("external_assets_legacy.json", "external_assets.json", "external_assets_single_key.json", "internal_events.json"):
         record(th.example_stream(f), f"example:{f}")
     record(th.reorder_datums(th.example_stream("external_assets_legacy.json"), rng, "late"), "example:legacy:datums-late")
-    for i in range(10 if q else 60):
+    for i in range(10 if q else 40):
         record(th.reorder_datums(th.example_stream("external_assets_legacy.json"), rng), f"example:legacy:reordered:{i}")
-    for i in range(100 if q else 2500):
+    for i in range(100 if q else 800):
         record(th.random_norm_run(rng, i, max_events=5 if q else 8), f"random:{i}")
 
     ctx.note(f"phase recorded runs: {time.time() - t0:.1f}s")
